@@ -323,6 +323,13 @@ def _corpus_families(big):
                         "cs": [{"k": "MinimumTrials", "n": n}]}})
         out.append({"factors": [col, size3, mt], "block": {"k": "repeat", "cs": [{"k": "MinimumTrials", "n": 5}],
                     "b": {"k": "cross", "design": [0, 1, 2], "crossing": [0, 2], "rcc": True, "cs": []}}})
+    # ... and with the *same* number (2) of completions per level: parity of a four-level source, stretched by MinimumTrials
+    num4 = _sf(1, ["1", "2", "3", "4"])
+    par = {"id": 2, "name": "f2", "window": {"deps": [1], "width": 1, "stride": 1, "start": None, "kind": "within"},
+           "levels": [{"name": "odd", "w": 1, "table": [0, 1, 0, 1, 0]}, {"name": "even", "w": 1, "table": [0, 0, 1, 0, 1]}]}
+    for n in (3, 4):
+        out.append({"factors": [num4, par], "block": {"k": "cross", "design": [1, 2], "crossing": [2], "rcc": True,
+                    "cs": [{"k": "MinimumTrials", "n": n}]}})
     # the same with *weighted* derived levels and a leftover round as long as the number of crossing instances
     sz3 = _sf(1, ["a", "b", "c"])
     kind_t = [0, 1, 0, 0]
@@ -705,6 +712,8 @@ def synth_isolated(desc, n, strat, timeout=60):
             out = json.loads(line[len("@@RESULT@@"):])
             if "ok" in out:
                 return ("ok", out["ok"])
+            if out.get("timeout"):
+                return ("timeout",)
             return ("exc", out["exc"], out["msg"])
     return ("died", p.returncode, (p.stdout + p.stderr)[-300:])
 
@@ -720,6 +729,8 @@ def synth_sequence(jobs, timeout=90):
     for line in p.stdout.splitlines():
         if line.startswith("@@RESULT@@"):
             out = json.loads(line[len("@@RESULT@@"):])
+            if any(r.get("timeout") for r in out["results"]):
+                return None
             return [("ok", r["ok"]) if "ok" in r else ("exc", r["exc"], r["msg"]) for r in out["results"]]
     return None
 
